@@ -1,10 +1,25 @@
-(* C19 — printable forms (statements; PrintProofs.v). pp layout is oracle-checked only (partial). *)
-From BS Require Import Prims IntCodec Print PrintProofs.
+(* C19 — printable forms (statements; PrintProofs.v, PrintPP.v). *)
+From BS Require Import Prims IntCodec Print PrintProofs PrintPP.
 Open Scope Z_scope.
 Theorem C19_str_roundtrip : forall b : bits, zlen b <= MAX_CHARS * 4 -> parse_parts (str_parts b) = b /\ p_truncated (str_parts b) = false.
 Proof. exact str_roundtrip. Qed.
 Theorem C19_str_truncation : forall b : bits, zlen b > MAX_CHARS * 4 ->
   p_truncated (str_parts b) = true /\ parse_parts (str_parts b) = firstn (Z.to_nat (MAX_CHARS * 4)) b.
 Proof. exact str_truncated. Qed.
+(* pp(): the line layout arithmetic of Bits._pp (bits per line, characters per line; compared with the implementation on every run).
+   A full line is wider than `width` only when it holds a single unit (one group; ungrouped: one character, or 24 bits for two formats),
+   and a line never splits a group. *)
+Theorem C19_pp_line_within_width : forall a, args_ok a -> unit_bits a < max_bits_per_line a -> line_chars a (max_bits_per_line a) <= pp_width a.
+Proof. exact line_within_width. Qed.
+Theorem C19_pp_never_splits_a_group : forall a, 0 < pp_group a -> max_bits_per_line a mod pp_group a = 0.
+Proof. exact line_holds_whole_groups. Qed.
+Theorem C19_pp_makes_progress : forall a, args_ok a -> 0 < max_bits_per_line a.
+Proof. exact max_bits_positive. Qed.
+Example C19_pp_nonvacuous : let a := mkpp 480 1 (Some 4) 0 60 1 false in
+  args_ok a /\ max_bits_per_line a = 24 /\ line_chars a 24 = 33 /\ unit_bits a = 24.
+Proof. unfold args_ok, bpc_ok. cbn. repeat split; try lia; auto. Qed.
 Print Assumptions C19_str_roundtrip.
 Print Assumptions C19_str_truncation.
+Print Assumptions C19_pp_line_within_width.
+Print Assumptions C19_pp_never_splits_a_group.
+Print Assumptions C19_pp_makes_progress.
